@@ -11,6 +11,10 @@ def check(ctx, replay=None):
         dict(scope="rich", mc=["RejectOK"], mc_maxskips=[255], stride=1 if th else 3, concs=2, expand=1),
         dict(scope="many", mc=["RejectOK"], mc_maxskips=[255], stride=1 if th else 10, concs=2, expand=1),
     ]
+    if th:
+        # around the kernel's limit (thorough only: TLC needs ~10 s per 4100-instruction model compilation to know the exact size):
+        # programs of 4090..4101 instructions; those that fit 4096 must be accepted
+        plan.append(dict(scope="limit", mc=None, kw=dict(W=10, X32Bit=512, NSys=300), stride=1, concs=2, expand=1))
     polfam.run_family(ctx, plan, mine={"accept", "panic"}, decision_owner=None)
     ctx.cov["rule"] = ("valid base policies and every single (thorough: also every pair of) listed defect injected at every position (scope defects of "
                        "CompileScopes.tla: unnamed default action, no groups, unknown name, duplicate, conditional+unconditional, argument index 6/7/max, "
